@@ -1,0 +1,54 @@
+//go:build verif
+
+package updog
+
+import (
+	"sync"
+)
+
+// Hooks for the verification harness under /verif. Compiled only with -tags verif.
+
+var (
+	verifHookMtx sync.Mutex
+	verifHook    func(site string)
+)
+
+// VerifSetCommitHook registers a callback invoked after every transaction commit of the writers.
+func VerifSetCommitHook(f func(site string)) {
+	verifHookMtx.Lock()
+	verifHook = f
+	verifHookMtx.Unlock()
+}
+
+func verifPoint(site string) {
+	verifHookMtx.Lock()
+	f := verifHook
+	verifHookMtx.Unlock()
+	if f != nil {
+		f(site)
+	}
+}
+
+// VerifCacheKey exposes the cache key of an expression.
+func VerifCacheKey(e Expression) uint64 { return e.cacheKey() }
+
+// VerifValueIndex exposes the value index (hash) of a column/value pair.
+func VerifValueIndex(k, v string) uint64 { return getValueIndex(k, v) }
+
+// VerifLRUOverhead is the per-entry overhead the LRU cache accounts for.
+func VerifLRUOverhead() uint64 { return uint64(lruCacheItemSize) + uint64(listElementSize) }
+
+// VerifLRUKeys returns the resident keys from most to least recently used.
+func VerifLRUKeys(c *LRUCache) []uint64 {
+	var keys []uint64
+	for e := c.lruList.Front(); e != nil; e = e.Next() {
+		keys = append(keys, e.Value.(*lruCacheItem).key)
+	}
+	return keys
+}
+
+// VerifLRUSizes returns the accounted current size and the maximum size.
+func VerifLRUSizes(c *LRUCache) (cur, max uint64) { return c.curSize, c.maxSize }
+
+// VerifIndexNextRowID exposes the row universe size of an open index.
+func VerifIndexNextRowID(idx *Index) uint32 { return idx.nextRowID }
